@@ -154,12 +154,14 @@ fn one_case<const K: usize>(r: &mut Rng, id: usize, out: &mut String) {
     let m = 1 + r.below(2);
     let cfg = TreeCfg {
         depth: r.below(4),
-        partial_pct: if r.chance(1, 2) { 0 } else { 25 },
+        partial_pct: if r.chance(1, 2) { 0 } else if K > 2 { 45 } else { 25 },
         early_leaf_pct: 25,
         maxk: 6,
         term_pool: 0,
     };
-    let cfg_b = TreeCfg { depth: r.below(3), ..cfg };
+    // (for K > 2 the right operand is partial more often: decisions with fewer than K children are where pruning,
+    // keep-last and forwarding interact)
+    let cfg_b = TreeCfg { depth: if K > 2 { 1 + r.below(2) } else { r.below(3) }, partial_pct: if K > 2 { 45 } else { cfg.partial_pct }, ..cfg };
     let ops = ["add", "sub", "mul", "div"];
     let op = ops[r.below(4)];
     let kind = r.below(10);
